@@ -404,7 +404,7 @@ def _analyze_simple_command(
     # 1. Check config rules first (highest priority)
     from dippy.core.config import SimpleCommand, match_command
 
-    cmd = SimpleCommand(words=words)
+    cmd = SimpleCommand(words=tokens)
     config_match = match_command(cmd, config, cwd, remote=remote)
     if config_match:
         if config_match.decision == "allow":
